@@ -45,30 +45,10 @@ impl Op {
 }
 
 fn cursor_key(c: &EliasFanoCursor<'_>) -> String {
-    // Debug derive prints every field. The first field `ef: EliasFano { .. }` is
-    // the immutable encoded sequence, identical for all cursors of one search;
-    // it is skipped by brace matching and *everything after it* is the key.
-    let d = format!("{c:?}");
-    let start = d.find("ef: ").expect("EliasFanoCursor Debug starts with the ef field");
-    let open = start + d[start..].find('{').expect("ef prints as a struct");
-    let mut depth = 0usize;
-    let mut end = None;
-    for (i, ch) in d[open..].char_indices() {
-        match ch {
-            '{' => depth += 1,
-            '}' => {
-                depth -= 1;
-                if depth == 0 {
-                    end = Some(open + i + 1);
-                    break;
-                }
-            }
-            _ => {}
-        }
-    }
-    let key = d[end.expect("balanced braces")..].to_string();
-    assert!(key.contains(" idx:") && key.contains("high_pos:") && key.contains("remaining_bits:"), "cursor key lost a field: {key}");
-    key
+    // Debug derive prints every field. The first field `ef: EliasFano { .. }` is the
+    // immutable encoded sequence, identical for all cursors of one search; everything
+    // after it (whatever the fields are called) is the key.
+    debug_key_without_first_field(&format!("{c:?}"))
 }
 
 /// Model: position m in 0..=n (n = exhausted). Returns new position.
